@@ -521,7 +521,7 @@ func init() {
 		hdrAlphaFile(c)
 		hdrE2E(c)
 		hdrAuthOnlyGroups(c)
-		c.close([]string{"hdr:linebreak-values", "hdr:authonly-allowed-groups", "hdr:htpasswd-groups-later", "alpha:merge", "canon:valid", "canon:invalid", "unit:req", "unit:resp", "wire:req", "legacy:flags",
+		c.close([]string{"hdr:connection-names-identity-header", "hdr:linebreak-values", "hdr:authonly-allowed-groups", "hdr:htpasswd-groups-later", "alpha:merge", "canon:valid", "canon:invalid", "unit:req", "unit:resp", "wire:req", "legacy:flags",
 			"sess:nil", "sess:cookie-like", "sess:bearer-like", "sess:basic-like", "sess:random",
 			"monitor:spoof-stripped", "monitor:preserved-client-kept", "monitor:nosession-empty", "cfg:shared-canonical-key",
 			"e2e:cookie", "e2e:bearer", "e2e:basic", "e2e:bypass-nosession", "e2e:bypass-session", "e2e:authonly-202",
@@ -1288,6 +1288,28 @@ func hdrAuthOnlyGroups(c *suiteCtx) {
 		for _, h := range pv.Hits {
 			if g := strings.Join(h.Header.Values("X-Forwarded-Groups"), ","); g != want {
 				c.violation("C07", "after an auth-only request with a group constraint, the same session is forwarded with other groups", map[string]interface{}{"query_before": q, "session_groups": want, "x_forwarded_groups": g})
+			}
+		}
+	}
+	// a client that lists a configured identity header in `Connection:` (hop-by-hop): the upstream must still see the session's value
+	// under that name — httputil.ReverseProxy removes the listed headers after the proxy injected them (known finding), and must in
+	// no case let a client value through
+	{
+		hu := defaultUser()
+		hck := e.issueSessionCookie(e.sessionFor(hu, 30*time.Second))
+		for _, conn := range []string{"X-Forwarded-Email", "x-forwarded-email, X-Forwarded-User", "close, X-Forwarded-Groups", "keep-alive"} {
+			pv := e.do(reqSpec{Target: "/app/hop", Cookie: hck, Header: http.Header{"Connection": {conn}, "X-Forwarded-Email": {"spoof@evil.example"}}})
+			c.casen("hdr|connection-hop|"+conn, fmt.Sprint(pv.Status))
+			c.count("hdr:connection-names-identity-header")
+			for _, h := range pv.Hits {
+				got := h.Header.Values("X-Forwarded-Email")
+				switch {
+				case len(got) == 1 && got[0] == hu.Email:
+				case len(got) == 0 && strings.Contains(strings.ToLower(conn), "x-forwarded-email"):
+					c.known("C07", "C07-connection-header-drops-identity", fmt.Sprintf("Connection: %s — the upstream received no X-Forwarded-Email although the session's e-mail is %q", conn, hu.Email))
+				default:
+					c.violation("C07", "a Connection header naming identity headers changed what the upstream sees under a configured name to something that is neither the session's value nor nothing", map[string]interface{}{"connection": conn, "x_forwarded_email": got, "session_email": hu.Email})
+				}
 			}
 		}
 	}
